@@ -1,4 +1,5 @@
 import DaliVerif.Proofs.ConstructLegal
+import DaliVerif.Proofs.EventLegal
 import DaliVerif.Model.Construct
 import DaliVerif.Gen.Commands
 import DaliVerif.Props.C05
@@ -232,5 +233,58 @@ theorem devSpecial_accepted_is_legal (T : Tables) (c : DevSpecialClass)
     (hreg : DevEntry.special c ∈ T.devCommands) (args : List Arg) (cmd : Cmd)
     (h : constructDevSpecial c args = .ok cmd) : WF T cmd :=
   Cmd.devSpecial_accepted_is_legal T c hreg args cmd h
+
+/-- **Event constructors, keyword arguments**: `_Event.__init__` accepts exactly
+the five keyword combinations of part 103 Table 3 and selects exactly that
+scheme; every other combination is refused (with `ValueError`). -/
+theorem event_keywords_spec (sa inum ig dg : Option Nat) (src : EventSrc) :
+    constructEventSrc sa inum ig dg = .ok src ↔
+      (∃ a, sa = some a ∧ inum = none ∧ ig = none ∧ dg = none ∧ src = .device a) ∨
+      (∃ a n, sa = some a ∧ inum = some n ∧ ig = none ∧ dg = none ∧ src = .deviceInstance a n) ∨
+      (∃ g, sa = none ∧ inum = none ∧ ig = none ∧ dg = some g ∧ src = .deviceGroup g) ∨
+      (∃ g, sa = none ∧ inum = none ∧ ig = some g ∧ dg = none ∧ src = .instanceGroup g) ∨
+      (∃ n, sa = none ∧ inum = some n ∧ ig = none ∧ dg = none ∧ src = .inst n) :=
+  Cmd.constructEventSrc_spec sa inum ig dg src
+
+theorem event_keywords_error (sa inum ig dg : Option Nat) (e : PyErr)
+    (h : constructEventSrc sa inum ig dg = .error e) : e = .ValueError :=
+  Cmd.constructEventSrc_error sa inum ig dg e h
+
+/-- **Event constructors, ranges**: if the frame assembly of an event object
+succeeds, short address ≤ 63, instance number / groups ≤ 31, instance type ≤ 31
+where the scheme carries it, data within the ten information bits — nothing is
+truncated into another event's frame. -/
+theorem event_accepted_fields (cls : String) (t : Nat) (src : EventSrc) (body : EventBody) (f : Frame)
+    (h : encode (.event cls t src body) = .ok f) :
+    SrcOK src ∧ (srcHasType src = true → t ≤ 31) ∧ BodyOK body :=
+  Cmd.event_accepted_fields cls t src body f h
+
+theorem unknownEvent_accepted_fields (t : Int) (src : EventSrc) (data : Nat) (f : Frame)
+    (h : encode (.unknownEvent t src data) = .ok f) :
+    SrcOK src ∧ (srcHasType src = true → 0 ≤ t ∧ t ≤ 31) ∧ data < 1024 :=
+  Cmd.unknownEvent_accepted_fields t src data f h
+
+theorem ambiguous_accepted_is_legal (T : Tables) (sa inum data : Nat) (f : Frame)
+    (h : encode (.ambiguous sa inum data) = .ok f) : WF T (.ambiguous sa inum data) :=
+  Cmd.ambiguous_accepted_is_legal T sa inum data f h
+
+theorem event_accepted_is_legal (T : Tables) (cls : String) (t : Nat) (src : EventSrc) (body : EventBody)
+    (f : Frame) (h : encode (.event cls t src body) = .ok f) (ht : t ≤ 31)
+    (hcls : match body with
+       | .pushbutton pc => cls = pc.name ∧ (pc.info, pc) ∈ T.pushEvents ∧
+           ∃ et, (t, et) ∈ T.instanceTypes ∧ et.kind = .pushbutton
+       | .occupancy .. => ∃ et, (t, et) ∈ T.instanceTypes ∧ et.kind = .occupancy ∧ et.name = cls
+       | .light _ => ∃ et, (t, et) ∈ T.instanceTypes ∧ et.kind = .light ∧ et.name = cls
+       | .unknown _ => False) :
+    WF T (.event cls t src body) :=
+  Cmd.event_accepted_is_legal T cls t src body f h ht hcls
+
+/-- non-vacuity: an event constructor call that is accepted, and one refused -/
+example : constructEventSrc (some 5) (some 3) none none = .ok (.deviceInstance 5 3) := rfl
+example : constructEventSrc (some 5) none (some 1) none = .error .ValueError := rfl
+example : (encode (.event "device.light.IlluminanceLevelReport" 4 (.inst 31) (.light 1023))).isOk = true := by
+  decide +kernel
+example : encode (.event "device.light.IlluminanceLevelReport" 4 (.inst 32) (.light 5)) = .error .ValueError := by
+  decide +kernel
 
 end DaliVerif.Props.C02
